@@ -489,6 +489,7 @@ DB = "nostr_relay/storage/db.py"
 KV = "nostr_relay/storage/kv.py"
 
 MUTANTS = [
+    M("c17-recipe-skips-super", "nostr_relay/recipe/homeserver.py", "    async def post_save(self, event, **kwargs):\n        await super().post_save(event, **kwargs)", "    async def post_save(self, event, **kwargs):\n        if event.kind == 22242:\n            return\n        await super().post_save(event, **kwargs)", "C17.overrides"),
     M("c17-sql-index-capped", DB, "            tags = set()\n            for tag in event.tags:\n                if tag[0] in (\"delegation\", \"expiration\"):", "            tags = set()\n            for tag in event.tags[:32]:\n                if tag[0] in (\"delegation\", \"expiration\"):", "C17.index"),
     M("c17-kv-index-no-expiration", KV, "                len(tag[0]) == 1 or tag[0] in (\"expiration\", \"delegation\")", "                len(tag[0]) == 1 or tag[0] in (\"delegation\",)", "C17.index"),
     M("c17-sql-index-break", DB, "                elif len(tag[0]) == 1:\n                    tags.add((tag[0], tag[1] if len(tag) > 1 else \"\"))\n", "                elif len(tag[0]) == 1:\n                    tags.add((tag[0], tag[1] if len(tag) > 1 else \"\"))\n                if len(tags) >= 64:\n                    break\n", "C17.index"),
